@@ -81,7 +81,7 @@ def grids_ok(pck, H, L, ndims, numfmt="repr"):
 def run_scenario(chk, sc, cfgseed, ndims):
     from amr_kitchen import PlotfileCooker
     rng = random.Random(cfgseed)
-    cfg = gamma.Config.draw(rng, ndims=ndims, payload=rng.choice(["tame", "wild"]), numfmt="g6" if cfgseed % 4 == 0 else "repr")
+    cfg = gamma.Config.draw(rng, ndims=ndims, payload=rng.choice(["tame", "wild"]), numfmt="g6" if cfgseed % 4 == 0 else ("e16" if cfgseed % 4 == 2 else "repr"))
     classes = [[rng.choice([1, 2]) for _ in range(nb)] for nb in sc["nbs"]]
     layouts = [rand_layout(rng, nb) for nb in sc["nbs"]]
     ap = gamma.make_ap("A", hkeys.concrete_names(sc["names"], cfgseed), classes, layouts, ndims=ndims, time=cfg.time)
